@@ -5,5 +5,5 @@ CONSTANTS
   DepthProbe = {0, 1, 2, 256}
 INIT Init
 NEXT Next
-INVARIANTS Inv_AcceptIffJson Inv_Value Inv_DepthScan Inv_SerRoundTrip
+INVARIANTS Inv_AcceptIffJson Inv_Value Inv_DepthScan Inv_SerRoundTrip Inv_IndexLaws
 CHECK_DEADLOCK FALSE
